@@ -105,7 +105,7 @@ Hypothesis HG : forall i j, (i < n)%nat -> (j < n)%nat -> (0 <= G i j)%Z.
 (* one iteration of the while loop re-establishes the invariant of Proofs/DistanceBin.v *)
 Lemma dinv_step d D nP Lm : dinv n G d D nP Lm ->
   let D' := tab 0%nat n n (fun i j => (D i j + (if Lm i j then d else 0))%nat) in
-  let nP' := tab 0%Z n n (matmul n nP G) in
+  let nP' := tab 0%Z n n (fun i j => b2z (znz (tab 0%Z n n (matmul n nP G) i j))) in
   let L' := tab false n n (fun i j => znz (nP' i j) && Nat.eqb (D' i j) 0) in
   dinv n G (S d) D' nP' L'.
 Proof.
@@ -121,7 +121,7 @@ Proof.
     - right. split; [reflexivity|lia]. }
   constructor.
   + lia.
-  + apply pow_ok_S; [exact HG|exact Hd|exact (di_pow _ _ _ _ _ _ I)].
+  + apply pow_ok_clip, pow_ok_S; [exact HG|exact Hd|exact (di_pow _ _ _ _ _ _ I)].
   + intros i Hi. rewrite HD' by assumption. pose proof (di_diag _ _ _ _ _ _ I i Hi). lia.
   + intros i j Hi Hj Hne H0 e He.
     destruct (Hcase i j Hi Hj Hne) as [[_ [_ [E _]]]|[EL E]]; [lia|].
@@ -133,7 +133,7 @@ Proof.
     * split; [lia|]. split; [exact W|]. apply (di_zero _ _ _ _ _ _ I i j Hi Hj Hne E0).
     * destruct (di_set _ _ _ _ _ _ I i j Hi Hj Hne Hnz) as [Hlt Hsd]. split; [lia|exact Hsd].
   + intros i j Hi Hj Hne. unfold L'. rewrite tab_spec by assumption.
-    pose proof (pow_ok_S n G HG d nP Hd (di_pow _ _ _ _ _ _ I) i j Hi Hj) as [_ HP].
+    pose proof (pow_ok_clip n G _ _ (pow_ok_S n G HG d nP Hd (di_pow _ _ _ _ _ _ I)) i j Hi Hj) as [_ HP].
     unfold znz. rewrite andb_true_iff, negb_true_iff, Z.eqb_neq, Nat.eqb_eq. fold nP' in HP. rewrite HP. tauto.
 Qed.
 
